@@ -38,6 +38,11 @@ THEOREMS = [P + t for t in (
     "sharedFirst_eval", "disjointFirst_eval",
     # round 4: graphs next to other graphs (merge_nodes), value shapes of the JSON-validated properties
     "invB_iff", "serialize_frame", "serialize_ignores_foreign", "validate_setter_produced", "validates_after_import_setter",
+    # round 7: state that outlives a call - file names written more than once, imports that were refused
+    "graphId_follows_file_tie", "file_direct_reads_last_write", "dfile_direct_reads_last_write", "file_direct_keeps_memo",
+    "file_reads_last_write", "file_direct_memo_counterexample",
+    "refused_import_tie", "refused_import_leaves_nothing", "refused_import_free_id", "refused_direct_import_unchanged",
+    "drefused_import_unchanged",
 )]
 TRUSTED_BASE = [
     "Model/GraphML.lean is a hand mirror of serialize_graph / extract_graph / add_graph / add_graph_direct / get_graph_id / the four "
@@ -68,6 +73,12 @@ TRUSTED_BASE = [
     "merge_nodes itself (nx.contracted_nodes) is NOT modelled: the stores it leaves behind (links leading from one graph into another, a "
     "node less in the other graph) enter the model as loaded states; that they satisfy StoreInv - the hypothesis of every shared-store "
     "theorem - is checked by the driver on every loaded store (request `inv`, Store.invB, tied to StoreInv by invB_iff)",
+    "the file system is modelled as path -> last document written (Model/SerialFS.lean); that get_graph_id / import_graph_from_file_direct "
+    "answer for the text that is in the file at the time of the call (no answer remembered per file name) is OBSERVED by the translator "
+    "(gen/serial.py probe_history: a path written with model a, b, a again on both importers and formats -> Gen.Serial.graphIdFollowsFile, "
+    "tied by graphId_follows_file_tie) and exercised by sessions / cases that re-use file names; the driver is handed the document, not the path. "
+    "Likewise Gen.Serial.refusedImportLeavesStore (refused imports under free ids at every refusal stage leave the store and the numbering "
+    "of the next import alone) is an observation; the model's refusal behaviour itself is tied by the whole-store dump after every refused import",
     "fresh uuids (the model id of a new Topology, NodeIDs handed out by enumerate_graph_nodes) are outside the model: the harness "
     "records the constructor's uuid and passes it to the driver; enumerate is exercised only on texts whose nodes have NodeIDs",
     "Python == between GraphID values is modelled by structural equality (1 == True == 1.0 coincidences are not generated)",
@@ -90,7 +101,13 @@ RULE = ("case = (store with 1-4 graphs: raw property graphs built by add_node/ad
         "policy; plus Topology-level "
         "sessions (1-3 Topology objects on one store: serialize to string/file, edit, load into the same / an aliasing / another / a "
         "fresh object with or without new_graph_id, constructors, clone_graph (nx and ABC), delete_graph, importer calls on files "
-        "written by Topology.serialize, enumerate_graph_nodes[_to_string], merge_nodes between two held models that share NodeIDs); non-trivial = graph has >= 1 edge and >= 1 value outside "
+        "written by Topology.serialize, enumerate_graph_nodes[_to_string], merge_nodes between two held models that share NodeIDs); "
+        "x history in the same process before the import (50% of the cases, deterministic corners first): imports refused at every refusal "
+        "stage (NodeID missing on the last / a random node, empty NodeID, mixed / missing GraphIDs; string / file / direct entries; the refused "
+        "text is another or the same graph of the store with a property no model has on every node), an earlier import of another model (or a "
+        "copy under another id) through the SAME file name, a second importer object; sessions save to re-used file names (60% of file saves) "
+        "and contain refused importer calls and loads; a violation is reported under `<signature>:after-<history kind>` only when the same case "
+        "passes without the history; non-trivial = graph has >= 1 edge and >= 1 value outside "
         "[A-Za-z0-9]; distinct by canonical snapshot hash x format x entry x policy (x op x store for sessions)")
 
 IMPORT_PLAN = [("string", "new"), ("string", "keep"), ("file", "new"), ("file", "keep"), ("string_direct", "keep"), ("file_direct", "keep")]
@@ -313,11 +330,25 @@ def _run_scenario_corr(sc, res, lines, expect, malformed_rng=None):
         im.close()
 
 
+RESIDUE = ("Residue", "left-by-a-refused-import")
+
+
 def edit_text(text, fmt, how, rng):
-    """a harness-side edit of a serialized text (the only way to obtain mixed / missing GraphIDs)"""
+    """a harness-side edit of a serialized text (the only way to obtain mixed / missing GraphIDs).
+    `how` = base[+residue]: base `nonid-last` takes the NodeID from the LAST node (every node before it is complete, so an
+    importer that merges while it checks has merged all but one); `residue` gives every node a property no model has,
+    so that whatever a refused import leaves behind shows in a later copy"""
+    how, _, deco = how.partition("+")
+    last = how == "nonid-last"
+    how = "nonid" if last else how
     if fmt == "json":
         o = json.loads(text)
         n = rng.choice(o["nodes"])
+        if last:
+            n = o["nodes"][-1]
+        if deco == "residue":
+            for x in o["nodes"]:
+                x[RESIDUE[0]] = RESIDUE[1]
         if how == "mixed":
             n["GraphID"] = "other-graph"
         elif how == "nogid":
@@ -336,6 +367,20 @@ def edit_text(text, fmt, how, rng):
     ns = {"g": "http://graphml.graphdrawing.org/xmlns"}
     nodes = root.findall("./g:graph/g:node", ns)
     n = rng.choice(nodes)
+    if last:
+        n = nodes[-1]
+    if deco == "residue":
+        keys = root.findall("./g:key", ns)
+        nums = [int(k.get("id")[1:]) for k in keys if k.get("id", "")[1:].isdigit()]
+        kid_new = "d%d" % (max(nums) + 1 if nums else 0)
+        k = etree.Element("{%s}key" % ns["g"], attrib={"id": kid_new, "for": "node", "attr.name": RESIDUE[0], "attr.type": "string"})
+        if keys:
+            keys[-1].addnext(k)
+        else:
+            root.insert(0, k)
+        for x in nodes:
+            d = etree.SubElement(x, "{%s}data" % ns["g"], attrib={"key": kid_new})
+            d.text = RESIDUE[1]
 
     def kid(name):
         ks = [k.get("id") for k in root.findall("./g:key", ns) if k.get("attr.name") == name and k.get("for") == "node"]
@@ -672,6 +717,119 @@ def _reject_shape(im, gid, exc):
 
 
 def check_case(case, res, sink=None):
+    """a case with a "history" (calls made in the same process between serialisation and import: an import that is refused,
+    an earlier import through the same file name) is reported under the plain signature when the same case fails the same
+    way without the history, under `<signature>:after-<history kinds>` when the history is what it takes"""
+    hist = case.get("history")
+    if not hist:
+        return _check_case_guarded(case, res, sink)
+    tmp = core.Result()
+    _check_case_guarded(case, tmp, sink)
+    for k, n in tmp.hist.items():
+        res.count(k, n)
+    res.nontrivial |= tmp.nontrivial
+    if not tmp.violations:
+        return
+    plain_case = {k: v for k, v in case.items() if k != "history"}
+    plain = core.Result()
+    _check_case_guarded(plain_case, plain, None)
+    psigs = {v["signature"] for v in plain.violations}
+    singles = []
+    if len(hist) > 1:
+        for h in hist:
+            r1 = core.Result()
+            _check_case_guarded(dict(case, history=[h]), r1, None)
+            singles.append(([h], {v["signature"] for v in r1.violations}))
+    for v in tmp.violations:
+        extra = {k: v[k] for k in ("expected", "observed") if k in v}
+        if v["signature"] in psigs:
+            res.violation(v["signature"], v["what"], plain_case, **extra)
+        else:
+            need = next((h1 for h1, sg in singles if v["signature"] in sg), hist)   # the one earlier call that suffices, if one does
+            res.violation("%s:after-%s" % (v["signature"], "+".join(sorted({h["kind"] for h in need}))),
+                          "%s (only after: %s)" % (v["what"], _short(need, 300)), dict(case, history=need), **extra)
+
+
+def make_history(rng, sc, entry):
+    """what happens in the process between serialising the model and importing the text (state that outlives a call):
+    refused imports - texts of a graph of the store damaged so that the importer refuses them at its different stages, every
+    node carrying a property no model has -, a second importer object, and, for the file entry points, an earlier import of
+    ANOTHER model's text through the same file name"""
+    hist = []
+    n = len(sc["graphs"])
+    others = [j for j in range(n) if j != sc["target"]]
+    if rng.random() < 0.6:
+        for _ in range(rng.choice([1, 1, 2])):
+            e = rng.choice(["string", "file", "string", "file", "string_direct", "file_direct"])
+            how = rng.choice(["nonid-last", "nonid-last", "nonid", "emptynid"]) if e in ("string", "file") else rng.choice(["mixed", "nogid"])
+            hist.append({"kind": "refused-import", "of": rng.randrange(n), "fmt": rng.choice(["graphml", "json"]), "how": how + "+residue",
+                         "entry": e, "seed": rng.randrange(10 ** 6)})
+    if rng.random() < 0.25:
+        hist.append({"kind": "second-importer-object"})
+    if entry in ("file", "file_direct") and (not hist or rng.random() < 0.7):
+        hist.append({"kind": "reused-file-name", "of": rng.choice(others) if others and rng.random() < 0.8 else "copy",
+                     "name": "model.%d.txt" % rng.randrange(3)})
+    return hist
+
+
+def corner_histories(sc, entry):
+    """deterministic: every refusal stage x format for every graph of the store as the refused text, the re-used file name
+    with another model / a copy of this one before"""
+    out = []
+    n = len(sc["graphs"])
+    k = 0
+    for j in range(n):
+        for e, how in (("string", "nonid-last"), ("file", "nonid"), ("string", "emptynid"), ("string_direct", "mixed"), ("file_direct", "nogid")):
+            for f in ("json", "graphml"):
+                k += 1
+                out.append([{"kind": "refused-import", "of": j, "fmt": f, "how": how + "+residue", "entry": e, "seed": k}])
+    out.append([{"kind": "second-importer-object"}])
+    out.append([out[0][0], {"kind": "second-importer-object"}])
+    if entry in ("file", "file_direct"):
+        for j in [x for x in range(n) if x != sc["target"]][:2] + ["copy"]:
+            out.append([{"kind": "reused-file-name", "of": j, "name": "model.txt"}])
+            out.append([out[0][0], {"kind": "reused-file-name", "of": j, "name": "model.txt"}])
+    return out
+
+
+def apply_history(im, gids, case, text, res):
+    """-> file name the import has to go through (or None)"""
+    name = None
+    for h in case.get("history") or []:
+        if h["kind"] == "refused-import":
+            try:
+                t0 = im.serialize(gids[h["of"]], h["fmt"])
+                t2 = edit_text(t0, h["fmt"], h["how"], random.Random("C01/history/%s" % h["seed"]))
+            except Exception:
+                res.count("history:refused-import:not-applicable")
+                continue
+            # under an id nobody holds: the unchanged code leaves the store as it was (a refused import under a held id deletes
+            # that graph before it looks at the nodes - the property says nothing about refused texts, so that is not claimed)
+            r = attempt(lambda: im.import_(h["entry"], t2, "refused-%d" % h["seed"] if h["entry"] in ("string", "file") else None))
+            res.count("history:refused-import:%s:%s:%s" % (h["entry"], h["how"], "accepted" if r[0] == "ok" else r[1]))
+        elif h["kind"] == "second-importer-object":
+            # the import (and everything after it) goes through another importer object of the same process: what an importer
+            # keeps belongs to the store both share, not to the object
+            im.imp = type(im.imp)()
+            res.count("history:second-importer-object")
+        elif h["kind"] == "reused-file-name" and case["entry"] in ("file", "file_direct"):
+            name = h["name"]
+            try:
+                if h["of"] == "copy":
+                    im.import_("string", text, "earlier-copy")
+                    t0 = im.serialize("earlier-copy", case["fmt"])
+                else:
+                    t0 = im.serialize(gids[h["of"]], case["fmt"])
+            except Exception:
+                res.count("history:reused-file-name:not-applicable")
+                continue
+            r = attempt(lambda: im.import_(case["entry"], t0, "earlier-import" if case["entry"] == "file" else None, name=name))
+            res.count("history:reused-file-name:%s:%s:earlier-import-%s" % (case["entry"], "copy" if h["of"] == "copy" else "other-model",
+                                                                             "ok" if r[0] == "ok" else r[1]))
+    return name
+
+
+def _check_case_guarded(case, res, sink=None):
     """never raises: an exception of the implementation outside the calls the property speaks about, or of the
     harness while reading the implementation's output, is itself recorded with the concrete case"""
     try:
@@ -707,6 +865,9 @@ def _check_case(case, res, sink=None):
             # merge_nodes moved the last node of the target into the other graph: there is no such graph any more
             res.count("vacuous:target-graph-emptied-by-merge_nodes")
             return
+        pd0 = L.public_diffs(im, tgt)          # also: every node has been looked up once before the text is written
+        if pd0:
+            bad("public-accessors-differ-from-store", "the public accessors show the held model differently from the store", observed=pd0)
         g0 = im.graph(tgt)
         try:
             g0.validate_graph()
@@ -744,8 +905,14 @@ def _check_case(case, res, sink=None):
             L.mutate_graph(im.graph(tgt), nids, case["mutate"])
             edited = L.snapshot(im.st, tgt)
         newid = tgt if (policy == "keep" or entry.endswith("direct")) else "copy-of-" + tgt
+        fname = apply_history(im, gids, case, text, res)
+        if case.get("history"):
+            # what the history itself did to the other graphs is not the import's doing (on the unchanged code: nothing)
+            others = {g: L.snapshot(im.st, g) for g in gids if g != tgt}
+            if edited is not None:
+                edited = L.snapshot(im.st, tgt)
         try:
-            got = im.import_(entry, text, newid if entry in ("string", "file") else None)
+            got = im.import_(entry, text, newid if entry in ("string", "file") else None, name=fname)
         except Exception as e:
             bad("%s:%s:import-raises:%s" % (fmt, entry, err_kind(e)), "import of the library's own text raised %s: %s" % (type(e).__name__, e),
                 observed=text[:600])
@@ -772,6 +939,10 @@ def _check_case(case, res, sink=None):
                 bad(sig or (fmt + ":content-differs"), "content after import differs from content before serialisation",
                     expected=_short(before, 600), observed=_short(detail if detail is not None else after, 600))
         else:
+            pd = L.public_diffs(im, got)
+            if pd and not pd0:
+                bad("%s:%s:public-accessors-differ-from-store" % (fmt, entry), "list_all_node_ids / get_node_properties / get_link_properties "
+                    "show the imported copy differently from what lies in the store", observed=pd)
             # re-serialisation gives the same content
             try:
                 text2 = im.serialize(got, fmt)
@@ -837,6 +1008,7 @@ class SessionOracle:
         if op == "save":
             s = ev["slot"]
             s.tainted = s.gid in self.tainted
+            s.public_ok = not L.public_diffs(run.im, s.gid)      # also: every node of the held model has been looked up
             if s.tainted:
                 return
             if ev["result"][0] != "ok" or s.text is None:
@@ -927,6 +1099,10 @@ class SessionOracle:
             return
         if after["graph_ids"] != [json.dumps(["str", got])]:
             self.bad(ev, "%s:graph-id-stamp" % tag, "nodes carry GraphIDs %s" % after["graph_ids"])
+        pd = L.public_diffs(run.im, got)
+        if pd and getattr(s, "public_ok", True):
+            self.bad(ev, "%s:public-accessors-differ-from-store" % tag, "list_all_node_ids / get_node_properties / get_link_properties show "
+                     "the loaded model differently from what lies in the store", observed=pd)
         # serializing again gives the same content
         try:
             t2 = run.im.serialize(got, s.fmt)
@@ -1055,6 +1231,18 @@ def oracle(ctx, res, n=None):
                     res.evaluations += 1
                     res.count("corpus:" + c["file"])
                     check_case({"scenario": sc, "fmt": fmt, "entry": entry, "policy": policy, "mutate": c.get("mutate")}, res)
+    # 1b. histories (calls made in the same process before the import), deterministic: two small models on one store
+    hrng = random.Random("C01/history-corner/%s" % ctx.seed)
+    for disj in (False, True):
+        sc = {"graphs": [{"kind": "raw", "gid": "hist-%d" % k, "spec": L.gen_raw_spec(hrng, maxn=4, maxe=4, maxp=3)} for k in range(2)],
+              "target": 1, "disjoint": disj}
+        for fmt in ("graphml", "json"):
+            for entry, policy in IMPORT_PLAN:
+                hs = corner_histories(sc, entry)
+                for h in (hs if ctx.thorough else hs[::4] + hs[10 * len(sc["graphs"]):]):
+                    res.evaluations += 1
+                    res.count("history-corner:%s:%s" % ("disjoint" if disj else "shared", "+".join(x["kind"] for x in h)))
+                    check_case({"scenario": sc, "fmt": fmt, "entry": entry, "policy": policy, "history": h}, res)
     # 2. generated
     n = n or ctx.scale(150, 1500)
     ntopo = ctx.scale(40, 400)
@@ -1076,8 +1264,11 @@ def oracle(ctx, res, n=None):
             res.count("%s:%s:%s:%s" % ("topo" if topo else "raw", fmt, entry, policy))
             case = {"scenario": sc, "fmt": fmt, "entry": entry, "policy": policy,
                     "mutate": ("o%d-%d" % (i, rng.randrange(10 ** 6))) if rng.random() < 0.5 else None}
-            res.count("history:%s:%s:%s" % ("disjoint" if sc.get("disjoint") else "shared",
-                                            "save-edit-reload" if case["mutate"] else "save-reload", policy))
+            if rng.random() < 0.5:
+                case["history"] = make_history(rng, sc, entry)
+            res.count("history:%s:%s:%s%s" % ("disjoint" if sc.get("disjoint") else "shared",
+                                              "save-edit-reload" if case["mutate"] else "save-reload", policy,
+                                              "".join(sorted({":after-" + h["kind"] for h in case.get("history") or []}))))
 
             def sink(im, tgt, before, valid, case=case):
                 if before["edges"] and any(isinstance(x[1][1], str) and x[1][1] and not x[1][1].isalnum()
@@ -1135,6 +1326,10 @@ def search(ctx, res, broken):
                         for mut in (None, sc.get("mutate") or "search-1", "search-2"):
                             res.evaluations += 1
                             check_case({"scenario": sc2, "fmt": fmt, "entry": entry, "policy": policy, "mutate": mut}, res)
+                        hs = corner_histories(sc2, entry)
+                        for h in hs[::5] + hs[10 * len(sc2["graphs"]):]:
+                            res.evaluations += 1
+                            check_case({"scenario": sc2, "fmt": fmt, "entry": entry, "policy": policy, "history": h}, res)
             if fresh() and len(seen) >= 3:
                 break
     if not fresh():
